@@ -127,7 +127,7 @@ class ToggleSpec(Spec):
             "legal host at control-transfer level: IN/OUT tokens to endpoint 0 only while a control transfer it started is in the matching stage",
             "a transaction the host did not ACK (ACK lost or data not received) is modelled as 'no ACK sent'",
             "traffic to another device address is seen as a hub forwards it downstream: the token and the host's handshake",
-            "the consumer of the OUT endpoint is always ready; IN endpoint 2 always has data; IN endpoint 1 has data according to a level that may rise at the configured cycle offsets of the next bus event",
+            "the consumer of the OUT endpoint is always ready; IN endpoint 2 always has data; IN endpoint 1 has data according to a level that may fall/rise between bus events and, before a status stage, rise at every configured cycle offset into it",
             "toggles are measured by lookahead on copies of the reached state: IN = PID of the next data packet (un-ACKed), OUT = whether a DATA0 packet is delivered to the stream"]
 
     # env = (masks, ctrl, v1, q)   masks: per endpoint in self.eps the set of admissible toggle values as a bit mask (1 = {0}, 2 = {1}, 3 = both)
@@ -151,8 +151,10 @@ class ToggleSpec(Spec):
             elif ctrl[1] == "sout": acts.append(("out0",))
         if c["fin"]: acts.append(("fin",))
         if c["delays"]:
-            if v1 == 0: acts += [("v1", k) for k in c["delays"]]
-            else: acts.append(("v1", 0))
+            # the producer may restart at once anywhere, and at every cycle offset of a status stage (where the reset is decided)
+            if v1 != 0: acts.append(("v1", 0))
+            elif ctrl is not None and ctrl[1] == "status": acts += [("v1", k) for k in c["delays"]]
+            else: acts.append(("v1", 1))
         if c["quiet"] and not q: acts.append(("quiet",))
         return acts
 
